@@ -539,11 +539,29 @@ func (g *G) next() *History {
 	k := g.r.Intn(tot)
 	for _, c := range cs {
 		if k < c.w {
-			return g.rawKey(g.zonePass(g.nilHeader(g.emptyMethod(c.f(g, id)))))
+			return g.shortBody(g.rawKey(g.zonePass(g.nilHeader(g.emptyMethod(c.f(g, id))))))
 		}
 		k -= c.w
 	}
 	return g.genGrid(id)
+}
+
+// shortBody: an upstream that is not one of net/http's transports may end a body cleanly before the length the
+// reply declares (a size guard, a mock). In one history out of twenty (for C06, C05, C10) some replies with a
+// Content-Length are of that kind: what was delivered is not the response, and it is not stored as the response.
+func (g *G) shortBody(h *History) *History {
+	if !(g.prop == "C06" || g.prop == "C05" || g.prop == "C10") || !g.chance(0.05) {
+		return h
+	}
+	for i := range h.Ops {
+		for k := range h.Ops[i].Replies {
+			rp := &h.Ops[i].Replies[k]
+			if !rp.Err && !rp.Hang && !rp.Chunked && !rp.NoCL && rp.BodyFail < 0 && len(rp.Body) >= 3 && g.chance(0.5) {
+				rp.ShortEOF = 1 + g.r.Intn(2)
+			}
+		}
+	}
+	return h
 }
 
 // rawKey: in one history out of twenty-five (one out of six for C16) some requests carry a header field under a map
